@@ -448,6 +448,27 @@ def check_usage_errors(ctx: Ctx) -> None:
         if t is not None:
             handlers = [ast.unparse(h.type) if h.type is not None else "<bare>" for h in t.handlers]
         hnodes = [s_ for s_, lab in cn.succ if lab == "exc" and s_.kind == "except"]
+        if t is None and not hnodes:
+            # no try around the run: a context manager of the package may be doing the same job
+            cm = _exit_manager_outcomes(ctx, f, cn)
+            if cm is not None:
+                inst, scen = cm
+                # what the function returns after the block: <instance>.<attr>
+                rets_after = [r for r in fl.cfg.returns() if fl.cfg.path_avoiding(cn, r, set()) is not None]
+                attrs = {r.ast.value.attr for r in rets_after if isinstance(r.ast.value, ast.Attribute) and isinstance(r.ast.value.value, ast.Name)
+                         and r.ast.value.value.id == inst}
+                plain = bool(rets_after) and all(isinstance(r.ast.value, ast.Attribute) and isinstance(r.ast.value.value, ast.Name)
+                                                  and r.ast.value.value.id == inst for r in rets_after) and len(attrs) == 1
+                attr = next(iter(attrs)) if len(attrs) == 1 else None
+                for name_, (swallowed, statuses) in scen.items():
+                    vals = statuses.get(attr, set()) if attr else set()
+                    ok = plain and swallowed and bool(vals) and all(isinstance(v, int) and not isinstance(v, bool) and v != 0 for v in vals)
+                    n_ret += 1
+                    if swallowed:
+                        handlers.append(name_)
+                    ctx.ob("R-USAGE", f"{main.qual} :: except {name_} -> return", ok,
+                           f"an error from the run must give a non-zero exit status; the context manager around the run "
+                           f"{'swallows' if swallowed else 'does not swallow'} it and the function then returns `{inst}.{attr}` in {sorted(map(str, vals))}", where(f, cn))
         for hn in hnodes:
             dec = Decider(prog, lambda _leaf, _al: None)
             vals: set = set()
@@ -596,6 +617,133 @@ def _in_except(node: ast.AST) -> str | None:
             return None
         p = parent(p)
     return None
+
+
+def _exit_manager_outcomes(ctx: Ctx, holder: FuncInfo, call_node: Node):
+    """The run sits in `with cm:` where cm is an instance of a class of the package whose __exit__ turns exceptions into a
+    status kept on the instance (and swallows them). Returns (instance name, attribute read for the status,
+    {"ValueError" | "Exception": (swallowed on every path, set of status constants)}) or None.
+    __exit__ is evaluated path by path under each scenario: isinstance(exc, ...) / issubclass(exc_type, ...) /
+    `exc is None` tests get their value from the scenario, other tests are followed both ways."""
+    from ..loader import ClassInfo, ConstInfo, parent
+
+    repo, prog = ctx.repo, ctx.prog
+    w = parent(call_node.ast)
+    prev: ast.AST = call_node.ast
+    while w is not None and not (isinstance(w, ast.With) and prev in w.body):
+        if isinstance(w, (ast.FunctionDef, ast.AsyncFunctionDef)):
+            return None
+        prev, w = w, parent(w)
+    if w is None or len(w.items) != 1:
+        return None
+    ce = w.items[0].context_expr
+    inst = None
+    cls_e = None
+    if isinstance(ce, ast.Name):
+        flow = prog.flow(holder)
+        wn = flow.cfg.node_of_stmt.get(w)
+        defs = flow.reaching(wn, ce.id) if wn is not None else []
+        if len(defs) == 1 and defs[0].kind == "assign" and isinstance(defs[0].value, ast.Call):
+            inst, cls_e = ce.id, defs[0].value.func
+    elif isinstance(ce, ast.Call) and isinstance(w.items[0].optional_vars, ast.Name):
+        inst, cls_e = w.items[0].optional_vars.id, ce.func
+    if inst is None or not isinstance(cls_e, (ast.Name, ast.Attribute)):
+        return None
+    ci = repo.resolve_expr(cls_e, holder.module, holder)
+    if not isinstance(ci, ClassInfo):
+        return None
+    ex = repo.find_method(ci, "__exit__")
+    en = repo.find_method(ci, "__enter__")
+    if ex is None or len(ex.params) < 3:
+        return None
+    if isinstance(ce, ast.Call) and en is not None:
+        # `with Cls() as x`: x is what __enter__ returns - it must be the instance
+        rets = [r for r in prog.flow(en).cfg.returns()]
+        if not rets or not all(isinstance(r.ast.value, ast.Name) and r.ast.value.id == en.params[0] for r in rets):
+            return None
+    selfname, tparam, eparam = ex.params[0], ex.params[1], ex.params[2]
+    eflow = prog.flow(ex)
+
+    def const_of(e: ast.AST):
+        if isinstance(e, ast.Constant):
+            return e.value
+        if isinstance(e, (ast.Name, ast.Attribute)):
+            r = repo.resolve_expr(e, ex.module, ex)
+            if isinstance(r, ConstInfo) and isinstance(r.value, ast.Constant):
+                return r.value.value
+        return "<unknown>"
+
+    def classes_of(e: ast.AST) -> list[str]:
+        return [norm(x).split(".")[-1] for x in (e.elts if isinstance(e, ast.Tuple) else [e])]
+
+    def ev(t: ast.AST, scen: str):
+        """True / False / None(unknown) of a test of __exit__ when `scen` escapes the block"""
+        is_a = {"ValueError": {"ValueError", "Exception", "BaseException"}, "Exception": {"Exception", "BaseException"}}[scen]
+        if isinstance(t, ast.UnaryOp) and isinstance(t.op, ast.Not):
+            v = ev(t.operand, scen)
+            return None if v is None else not v
+        if isinstance(t, ast.BoolOp):
+            vs = [ev(v, scen) for v in t.values]
+            if isinstance(t.op, ast.And):
+                return False if any(v is False for v in vs) else (True if all(v is True for v in vs) else None)
+            return True if any(v is True for v in vs) else (False if all(v is False for v in vs) else None)
+        if isinstance(t, ast.Call) and isinstance(t.func, ast.Name) and t.func.id in ("isinstance", "issubclass") and len(t.args) == 2 \
+                and isinstance(t.args[0], ast.Name) and t.args[0].id == (eparam if t.func.id == "isinstance" else tparam):
+            cs = classes_of(t.args[1])
+            if any(c in is_a for c in cs):
+                return True
+            # a class the scenario's exception is not known to be (OSError for a generic Exception): the generic exception is not one
+            return False
+        if isinstance(t, ast.Compare) and len(t.ops) == 1 and isinstance(t.left, ast.Name) and t.left.id in (eparam, tparam) \
+                and isinstance(t.comparators[0], ast.Constant) and t.comparators[0].value is None:
+            return isinstance(t.ops[0], ast.IsNot)
+        if isinstance(t, ast.Name) and t.id in (eparam, tparam):
+            return True
+        return None
+
+    out: dict[str, tuple[bool, set]] = {}
+    attr_read: set[str] = set()
+    for scen in ("ValueError", "Exception"):
+        swallowed = True
+        statuses: dict[str, set] = {}
+        stack = [(eflow.cfg.entry, {}, 0)]
+        n_paths = 0
+        while stack:
+            node, attrs, depth = stack.pop()
+            if depth > 200:
+                return None
+            if node.kind == "stmt" and isinstance(node.ast, ast.Return):
+                n_paths += 1
+                rv = const_of(node.ast.value) if node.ast.value is not None else None
+                if rv is not True:
+                    swallowed = False
+                for k, v in attrs.items():
+                    statuses.setdefault(k, set()).add(v)
+                continue
+            if node.kind == "stmt" and isinstance(node.ast, ast.Raise):
+                swallowed = False
+                continue
+            attrs2 = attrs
+            if node.kind == "stmt" and isinstance(node.ast, ast.Assign) and len(node.ast.targets) == 1 and isinstance(node.ast.targets[0], ast.Attribute) \
+                    and isinstance(node.ast.targets[0].value, ast.Name) and node.ast.targets[0].value.id == selfname:
+                attrs2 = dict(attrs)
+                attrs2[node.ast.targets[0].attr] = const_of(node.ast.value)
+            succ = [(s_, lab) for s_, lab in node.succ if lab != "exc"]
+            if not succ:
+                # fell off the end: returns None (not swallowed)
+                n_paths += 1
+                swallowed = False
+                continue
+            if node.kind == "test" and isinstance(node.ast, ast.expr):
+                v = ev(node.ast, scen)
+                if v is not None:
+                    succ = [(s_, lab) for s_, lab in succ if lab == ("T" if v else "F")]
+            for s_, _lab in succ:
+                stack.append((s_, attrs2, depth + 1))
+        if not n_paths:
+            return None
+        out[scen] = (swallowed, statuses)
+    return inst, out
 
 
 def _enclosing_try(node: ast.AST) -> ast.Try | None:
